@@ -19,7 +19,10 @@ RULE = ("Hypothesis builds typedef / variable / function declarations by repeate
         "non-type arguments and defaults. Only TUs g++ accepts are used. The declarations printed by parse_file and the type names / "
         "prototypes in the interrogate database are re-declared under fresh names in the original TU and "
         "static_assert(std::is_same<original, printed>) must compile. Second slice: every parser-inc stub header that g++ accepts must "
-        "parse with zero errors. Non-trivial: a declaration with declarator depth>=2 or a qualified/aliased/template name; distinct by "
+        "parse with zero errors. Third slice: a published class inside nested namespaces/classes uses unqualified class and template "
+        "names that are declared at several levels (shadowing, using-directives, using-declarations, typedefs; which of them exist is "
+        "generated, g++ filters invalid TUs); the method types recorded in the database must satisfy "
+        "static_assert(is_same<decltype(&Scope::W::f), recorded>). Non-trivial: a declaration with declarator depth>=2 or a qualified/aliased/template name; distinct by "
         "(declarator skeleton, name-lookup feature).")
 ASSUMPTIONS = ["g++ 12 -std=gnu++17 decides what is valid C++ and whether two spellings denote the same type", "harmless spelling differences (east/west const, spacing, added ::) pass by construction of the oracle",
                "printed text that g++ cannot parse at all counts as a failure of that declaration"]
@@ -58,7 +61,7 @@ OPS = ["ptr", "ptr", "lref", "rref", "array", "array", "func", "const", "const",
 
 
 def stages(ctx):
-    return [("decls", 14), ("stubs", 2)]
+    return [("decls", 10), ("scoped", 4), ("stubs", 2)]
 
 
 def _strategy(ctx):
@@ -254,6 +257,8 @@ def render(case, off):
 def judge(case, ctx):
     if case.get("stub"):
         return judge_stub(case, ctx)
+    if case.get("scoped"):
+        return judge_scoped(case, ctx)
     off = frozenset(ctx.disabled_tags)
     src, ents = render(case, off)
     with run.Scratch("c06") as d:
@@ -362,6 +367,94 @@ def judge(case, ctx):
     return Outcome(ok=True, nontrivial=nt, classes=classes, sample={"declarations": [e["text"] for e in ents[:8]]})
 
 
+# ---- scoped slice: unqualified names used inside nested scopes (shadowing, using-directives, using-declarations) -----------------
+
+SC_NAMES = ["Box<int>", "Box<Tag>", "Box<Z>", "Tag", "Z", "::Box<int>", "::Tag", "U::Z", "Box<Box<Tag> >", "Pr<Tag, Z>", "Pr<int>", "Inner", "W", "Alias"]
+
+
+def _scoped_strategy(ctx):
+    flag = st.booleans()
+    meth = st.lists(st.integers(0, len(SC_NAMES) - 1), min_size=1, max_size=3)
+    return st.builds(lambda fl, meths, where: {"scoped": True, "flags": fl, "meths": meths, "where": where},
+                     st.lists(flag, min_size=12, max_size=12), st.lists(meth, min_size=1, max_size=8), st.integers(0, 2))
+
+
+def render_scoped(case, off=frozenset()):
+    """a TU with the same names declared at several levels; the published class W (in M::K, M or a nested class) uses them
+    unqualified.  Which declarations exist is generated; g++ decides whether the result is valid."""
+    f = list(case["flags"])
+    if "lookup.using_directive_shadow" in off and (f[6] or f[8]):
+        f[1] = f[2] = False        # known finding: names of a using-directive namespace hide those of the enclosing namespaces
+    L = ["template<class X> struct Box { X g; };", "template<class A, class B = A> struct Pr { A a; B b; };", "struct Tag { int t; };", "struct Z { int gz; };" if f[0] else "",
+         "struct Inner { int gi; };", "typedef Tag Alias;",
+         "namespace U {", "  struct Z { int z; };", "  template<class X> struct Box { X u; };" if f[1] else "", "  struct Tag { int ut; };" if f[2] else "", "}",
+         "namespace M {", "  template<class X> struct Box { X *p; };" if f[3] else "", "  struct Tag { int m; };" if f[4] else "",
+         "  template<class A, class B = A> struct Pr { B b; A a; };" if f[5] else "", "  using namespace U;" if f[6] else "", "  using U::Z;" if f[7] else "",
+         "  typedef Box<int> Alias;" if f[11] else "",
+         "  namespace K {", "    using namespace U;" if f[8] else "", "    struct Inner { int ki; };" if f[9] else "", "    using ::Tag;" if f[10] else ""]
+    where = case["where"]
+    scope = {0: "M::K::W", 1: "M::K::Outer::W", 2: "M::K::W"}[where]
+    ind = "    "
+    if where == 1:
+        L.append("    struct Outer {")
+        L.append("      struct Inner { int oi; };")
+        ind = "      "
+    L.append(ind + "struct W {")
+    L.append(ind + "__published:")
+    meths = []
+    for i, m in enumerate(case["meths"]):
+        ret = SC_NAMES[m[0]]
+        ps = [SC_NAMES[x] for x in m[1:]]
+        L.append(ind + "  %s *f%d(%s);" % (ret, i, ", ".join("%s *a%d" % (p_, j) for j, p_ in enumerate(ps))))
+        meths.append("f%d" % i)
+    L.append(ind + "};")
+    if where == 1:
+        L.append("    };")
+    L += ["  }", "}", "__begin_publish", "%s *make_w();" % scope, "__end_publish"]
+    return "\n".join(x for x in L if x) + "\n", scope, meths
+
+
+def judge_scoped(case, ctx):
+    src, scope, meths = render_scoped(case, frozenset(ctx.disabled_tags))
+    with run.Scratch("c06n") as d:
+        run.write(os.path.join(d, "l.h"), src)
+        run.write(os.path.join(d, "t.cxx"), '#define __published public\n#define __begin_publish\n#define __end_publish\n#include "l.h"\n')
+        g = igate.gxx(d, ["-fsyntax-only", "t.cxx"])
+        if g.rc != 0:
+            return Outcome(discard=True, classes=["scoped.invalid"])
+        r = igate.interrogate(d, ["l.h"], opts=["-c", "-fnames"])
+        if r.abnormal or r.rc != 0:
+            return Outcome(ok=False, key="scoped-rejected", detail="g++ accepts the TU but interrogate fails (%s): %s\n%s" % (r.kind(), r.err.decode("latin-1")[-400:], src))
+        db = igate.load_db(os.path.join(d, "l.in"))
+        Ty = {t["index"]: t for t in db["types"]}
+        W = {w["index"]: w for w in db["wrappers"]}
+        checks = []
+        for fn in db["functions"]:
+            if fn["scoped_name"].rsplit("::", 1)[0] != scope or fn["name"] not in meths:
+                continue
+            proto = fn["prototype"].strip().rstrip(";")
+            key = "%s::%s(" % (scope, fn["name"])
+            if proto.count(key) != 1 or "\n" in proto:
+                continue
+            checks.append((fn["name"], proto.replace(key, "(%s::*)(" % scope)))
+        if len(checks) != len(meths):
+            return Outcome(ok=False, key="scoped-missing", detail="%d published methods of %s, %d in the database\n%s" % (len(meths), scope, len(checks), src))
+        tu = ['#define __published public', '#define __begin_publish', '#define __end_publish', '#include "l.h"', '#include <type_traits>']
+        for name, sig in checks:
+            tu.append('static_assert(std::is_same<decltype(&%s::%s), %s>::value, "%s");' % (scope, name, sig, name))
+        run.write(os.path.join(d, "chk.cxx"), "\n".join(tu) + "\n")
+        g = igate.gxx(d, ["-fsyntax-only", "chk.cxx"])
+        if g.rc != 0:
+            err = g.err.decode("latin-1")
+            m = re.search(r"chk\.cxx:(\d+):", err)
+            line = tu[int(m.group(1)) - 1] if m else ""
+            return Outcome(ok=False, key="scoped-lookup", classes=["scoped"],
+                           detail="the types interrogate records for a method do not denote the declared ones:\n  %s\n%s\nsource:\n%s" % (line, "\n".join(l for l in err.splitlines() if "error" in l)[:400], src))
+    feats = tuple(i for i, x in enumerate(case["flags"]) if x)
+    return Outcome(ok=True, nontrivial=["scoped|%s|%d|%s" % (feats, case["where"], sorted({n for m in case["meths"] for n in m}))], classes=["scoped", "scoped.where%d" % case["where"]],
+                   sample={"scope": scope, "declared": [l.strip() for l in src.splitlines() if "f0(" in l or "f1(" in l][:2], "recorded": [c[1] for c in checks[:2]]})
+
+
 def _decl_text(ents):
     return "\n".join(e["text"] for e in ents[:40])
 
@@ -392,6 +485,10 @@ def worker(ctx, widx, stage, stats):
     if stage == "decls":
         f = core.hypothesis_search(None, ctx, _strategy(ctx), judge, ctx.pick(400, 5000), ctx.seed * 1000 + widx, stats,
                                    time_budget=ctx.pick(90, 900))
+        return [f] if f else []
+    if stage == "scoped":
+        f = core.hypothesis_search(None, ctx, _scoped_strategy(ctx), judge, ctx.pick(150, 3000), ctx.seed * 1000 + 500 + widx, stats,
+                                   time_budget=ctx.pick(80, 900))
         return [f] if f else []
     fails = []
     names = stub_headers()
